@@ -285,6 +285,8 @@ def oracle(chk, lines, outs, known=None):
             ret, _, ev = out.partition(" [")
             ev = ev.rstrip("]").split()
             chk.count("mutations")
+            # the guard of the history theorems (C16Hist.HashClass): hashability is a function of the equality class
+            chk.count("mutations_inside_theorem_guard" if not mixed_seen else "mutations_outside_theorem_guard")
             if ret == "TypeError":
                 # an unhashable component that is == to a registered hashable one (or the reverse): recorded separately
                 bad.append((i, "%s raised TypeError half-way (unhashable component equal to a hashable one)" % line))
